@@ -35,6 +35,16 @@ func (w windowRel) eval(E, h int) bool {
 	}
 	return a <= b
 }
+
+// negated returns the relation that holds exactly when w does not: !(h < E) is E <= h.
+func (w windowRel) negated() windowRel {
+	op := "<"
+	if w.op == "<" {
+		op = "<="
+	}
+	return windowRel{op, !w.eFirst}
+}
+
 func (w windowRel) String() string {
 	if w.eFirst {
 		return "Expiration " + w.op + " height"
@@ -228,7 +238,7 @@ func checkC07(r *Result) {
 			{Name: "inCycle", Cond: func(rel *Term) (bool, bool) {
 				return strings.HasPrefix(rel.Op, "field:x/oracle/types.QueryMeta.CycleList"), true
 			}},
-			{Name: "windowClosed", Cond: func(rel *Term) (bool, bool) {
+			{Name: "windowClosed", Exact: true, Cond: func(rel *Term) (bool, bool) {
 				if w, ok := asWindowRel(rel); ok {
 					accRel = &w
 					return true, true
@@ -259,7 +269,7 @@ func checkC07(r *Result) {
 	if hb := need("(x/oracle/keeper.Keeper).HandleBridgeDepositDirectReveal"); hb != nil {
 		// the last window test before SetValue is the strict one
 		var last *windowRel
-		atoms := []Atom{{Name: "windowClosed", Cond: func(rel *Term) (bool, bool) {
+		atoms := []Atom{{Name: "windowClosed", Exact: true, Cond: func(rel *Term) (bool, bool) {
 			if w, ok := asWindowRel(rel); ok && w.op == "<" {
 				last = &w
 				return true, true
@@ -367,8 +377,15 @@ func checkC07(r *Result) {
 		} else {
 			first := h.Instrs[0]
 			atoms := []Atom{
-				{Name: "expired", Cond: func(rel *Term) (bool, bool) {
+				{Name: "expired", Exact: true, Cond: func(rel *Term) (bool, bool) {
 					if w, ok := asWindowRel(rel); ok {
+						if !w.eFirst {
+							// the guard is written the other way round (`if height < Expiration { continue }`): the round is
+							// aggregated when that test fails, i.e. under its negation
+							n := w.negated()
+							aggRel = &n
+							return true, false
+						}
 						aggRel = &w
 						return true, true
 					}
@@ -458,7 +475,7 @@ func checkC07(r *Result) {
 				}
 				return false, false
 			}},
-			{Name: "open", Cond: func(rel *Term) (bool, bool) {
+			{Name: "open", Exact: true, Cond: func(rel *Term) (bool, bool) {
 				if w, ok := asWindowRel(rel); ok && !w.eFirst && w.op == "<" {
 					// height < Expiration: still open
 					if rotRel == nil {
@@ -716,7 +733,7 @@ func checkC07(r *Result) {
 				{Name: "revealed", Cond: func(rel *Term) (bool, bool) {
 					return strings.HasPrefix(rel.Op, "field:x/oracle/types.QueryMeta.HasRevealedReports"), true
 				}},
-				{Name: "expired", Cond: func(rel *Term) (bool, bool) {
+				{Name: "expired", Exact: true, Cond: func(rel *Term) (bool, bool) {
 					if w, ok := asWindowRel(rel); ok && w.eFirst && w.op == "<" {
 						return true, true
 					}
